@@ -264,7 +264,7 @@ def params(tier):
     if tier == 'quick':
         return {'examples': 600, 'wall': 200, 'case_timeout': 30, 'slice': 1}
 
-    return {'examples': 6000, 'wall': 700, 'case_timeout': 30, 'slice': 1}
+    return {'examples': 30000, 'wall': 700, 'case_timeout': 30, 'slice': 1}
 
 
 def exhaustive(tier):
